@@ -345,6 +345,18 @@ def slim(inst):
     return inst
 
 
+def shrunk(c, inst):
+    """shrink the first few failing instances (bounded), keep the others as generated"""
+    n = c.extra.setdefault("shrunk_failures", 0)
+    if n >= 2:
+        return inst
+    c.extra["shrunk_failures"] = n + 1
+    try:
+        return shrink(inst)
+    except Exception:
+        return inst
+
+
 def prepare(c, inst, rng, prob=None):
     """run the code on the instance, build the driver line; returns (case, line) or None"""
     try:
@@ -430,7 +442,8 @@ def compare(c, cs, out):
         both(None, None, gd,
              "rows of g are not the theta-method residuals (missing / extra / mis-weighted / mis-timed row): ",
              "initial derivatives handed to the t0 instance differ from the specification: ",
-             lambda why: c.fail(why, slim(inst), {"rows_spec": int(om.shape[0]), "rows_g": int(cs.R)}),
+             lambda why: c.fail(why, shrunk(c, inst), {"rows_spec": int(om.shape[0]), "rows_g": int(cs.R),
+                                                        "note": "case = shrunk instance when shrinking succeeded"}),
              parts=((om, [(0.0, 0.0)] * om.shape[0]), (op, None)))
     # ---- correspondence with the Lean model
     if out is None:
@@ -462,6 +475,105 @@ def compare(c, cs, out):
     Md = np.array([[float(x) for x in row] for row in dv], dtype=float).T if dv and len(dv[0]) else np.zeros((0, len(cs.dense)))
     both(Md, mb, gd, "row values at probe decision vectors differ: ", "t0 path-constraint row values differ: ",
          lambda why: c.disagree(why, slim(inst)))
+
+
+# -------------------------------------------------------------------------------------------------
+# shrinking of a failing instance (oracle only; bounded)
+
+
+def oracle_fails(inst, seed=12345):
+    """does the independent oracle (or transcribe itself) fail on this instance?"""
+    import random
+
+    try:
+        cs = run_code(copy.deepcopy(inst))
+    except Exception:
+        return True
+    rng = random.Random(seed)
+    cs.dense = random_probes(cs, rng, 4 if S.is_affine_spec(inst) else cs.N + 5)
+    gd = np.array([g_at(cs, x) for x in cs.dense]).T if cs.R else np.zeros((0, len(cs.dense)))
+    code_b = list(zip(cs.lb.tolist(), cs.ub.tolist()))
+    try:
+        om, op = oracle_values(cs, cs.dense)
+    except Exception:
+        return True
+    pcb = tuple(float(x) for x in (inst.get("pc_bounds") or (-7.0, 9.0)))
+    has_pc = bool(inst.get("pc"))
+    main = [r for r in range(cs.R) if not (has_pc and code_b[r] == pcb)]
+    pcs = [r for r in range(cs.R) if has_pc and code_b[r] == pcb]
+    sel = lambda M, rows: M[rows, :] if len(rows) else np.zeros((0, M.shape[1]))  # noqa: E731
+    if match_rows(om, sel(gd, main), [(0.0, 0.0)] * om.shape[0], [code_b[r] for r in main]):
+        return True
+    if has_pc and match_rows(op, sel(gd, pcs), [pcb] * op.shape[0], [pcb] * len(pcs), subset=True):
+        return True
+    return False
+
+
+def shrink(inst, budget=60):
+    """greedy reduction of a failing instance: fewer members, stamps, equations, terms; unit
+    nominals; no extras.  Every candidate is re-checked with the oracle on the real code."""
+    cur = copy.deepcopy(inst)
+    used = [0]
+
+    def attempt(cand):
+        if used[0] >= budget:
+            return False
+        used[0] += 1
+        try:
+            return oracle_fails(cand)
+        except Exception:
+            return False
+
+    def variants(x):
+        # drop a member
+        for m in range(x["E"] - 1, -1, -1):
+            if x["E"] > 1:
+                y = copy.deepcopy(x)
+                y["E"] -= 1
+                for key in ("pvals", "cin", "history"):
+                    if y.get(key):
+                        del y[key][m]
+                yield y
+        # fewer stamps
+        if len(x["ts"]) > 2:
+            y = copy.deepcopy(x)
+            y["ts"] = y["ts"][:-1]
+            y["own_times"] = {}
+            yield y
+        for key, val in (("init_eqs", None), ("own_times", {}), ("npv", 0), ("nev", 0), ("nxc", 0), ("dyn", []),
+                         ("modes", {}), ("again", False)):
+            if x.get(key):
+                y = copy.deepcopy(x)
+                y[key] = val
+                yield y
+        if any(v != 1.0 for v in x["nom"].values()):
+            y = copy.deepcopy(x)
+            y["nom"] = {k: 1.0 for k in y["nom"]}
+            yield y
+        if not x.get("pc") and any(x.get("history") or []):
+            y = copy.deepcopy(x)
+            y["history"] = [{} for _ in range(y["E"])]
+            yield y
+        for e in range(len(x["eqs"]) - 1, -1, -1):
+            if len(x["eqs"]) > 1:
+                y = copy.deepcopy(x)
+                del y["eqs"][e]
+                yield y
+        for e in range(len(x["eqs"])):
+            for t in range(len(x["eqs"][e]["t"]) - 1, -1, -1):
+                y = copy.deepcopy(x)
+                del y["eqs"][e]["t"][t]
+                yield y
+
+    progress = True
+    while progress and used[0] < budget:
+        progress = False
+        for cand in variants(cur):
+            if attempt(cand):
+                cur = cand
+                progress = True
+                break
+    return cur
 
 
 def solve_and_check(c, cs):
